@@ -243,6 +243,10 @@ m("C04", "proof",
   "expiry at the limit declares the limit fault and re-sends nothing; progress resets; a limit fault during the "
   "cancel exchange abandons (with C14); C04_expiry_count: the fault falls on expiry number limit - c, for a "
   "fresh procedure the limit-th; a re-received EOF is not progress (C04_dest_eof_again_not_progress). "
+  "FOR EVERY CALL SEQUENCE (generated whole-FSM invariants Lemmas/InvSourceBound.lean, InvDestBound.lean): the "
+  "sender's EOF retry counter and the receiver's NAK retry counter satisfy counter+1 <= limit, whatever the fault "
+  "handlers and whatever arrives in between (C04_source_counter_below_limit_all_histories, "
+  "C04_dest_nak_counter_below_limit_all_histories): at most limit-1 re-sends per procedure. "
   "ITERATION OVER TIME, by induction on the list of expiry times (any times at "
   "which the restarted timer has run out, PDUs retrieved in between): k expiries below the limit re-send "
   "exactly k PDUs (EOF / Finished / NAK sequence), add exactly k to the counter and change nothing else "
